@@ -12,7 +12,7 @@ import (
 
 type C17Params struct {
 	Variant  string `json:"variant"`
-	Mode     string `json:"mode"`      // silence | reset | stale | partial
+	Mode     string `json:"mode"`      // silence | reset | stale | partial | post
 	CutNs    int64  `json:"cut_ns"`    // silence begins
 	HealNs   int64  `json:"heal_ns"`   // reset mode: link heals at this time ...
 	Cut2Ns   int64  `json:"cut2_ns"`   // ... and is cut again at this time
@@ -28,6 +28,14 @@ type C17Params struct {
 	CutC int `json:"cut_c,omitempty"`
 	CutS int `json:"cut_s,omitempty"`
 	MTU  int `json:"mtu,omitempty"`
+	// post mode (scn_c17post.go): a DTLS 1.3 KeyUpdate flight sent into silence by endpoint Side
+	// while its application writes every TickMs
+	Side       string `json:"side,omitempty"`
+	TickMs     int    `json:"tick_ms,omitempty"`
+	SilenceMs  int    `json:"silence_ms,omitempty"`
+	UpdDelayMs int    `json:"upd_delay_ms,omitempty"`
+	OneWay     bool   `json:"one_way,omitempty"`
+	ReqPeer    bool   `json:"req_peer,omitempty"`
 }
 
 func c17Counts(tier string) (int, int) {
@@ -41,7 +49,7 @@ func c17Counts(tier string) (int, int) {
 func c17Gen(r *rand.Rand, tier string, idx int) any {
 	vs := Variants()
 	p := &C17Params{Variant: vs[r.IntN(len(vs))].Name}
-	p.Mode = []string{"silence", "silence", "reset", "stale", "stale", "partial"}[r.IntN(6)]
+	p.Mode = []string{"silence", "silence", "reset", "stale", "stale", "partial", "post"}[r.IntN(7)]
 	p.FlightMs = []int{20, 50, 100, 300, 1000, 1000, 2000}[r.IntN(7)]
 	p.NoBack = r.IntN(4) == 0
 	p.LatMs = 1 + r.IntN(30)
@@ -63,6 +71,24 @@ func c17Gen(r *rand.Rand, tier string, idx int) any {
 		p.CutC, p.CutS = 1+r.IntN(16), 1+r.IntN(24)
 		p.MTU = []int{0, 100, 100, 200, 400}[r.IntN(5)]
 		p.CutNs = int64(time.Millisecond) * int64(40+12*p.LatMs)
+	}
+	if p.Mode == "post" {
+		p.Variant = []string{"13-full", "13-hrr", "13-clientauth", "dual-13"}[r.IntN(4)]
+		p.Side = []string{"c", "s"}[r.IntN(2)]
+		p.TickMs = []int{0, 5, 20, 100, 400, 1500}[r.IntN(6)]
+		p.SilenceMs = p.FlightMs * (1 << (2 + r.IntN(7)))
+		if p.SilenceMs > 600_000 {
+			p.SilenceMs = 600_000
+		}
+		if p.TickMs > 0 && p.SilenceMs > 5000*p.TickMs {
+			p.SilenceMs = 5000 * p.TickMs
+		}
+		if p.NoBack && p.SilenceMs > 200*p.FlightMs {
+			p.SilenceMs = 200 * p.FlightMs
+		}
+		p.UpdDelayMs = r.IntN(50)
+		p.OneWay = r.IntN(3) == 0
+		p.ReqPeer = r.IntN(2) == 0
 	}
 
 	return p
@@ -124,6 +150,18 @@ func c17Run(rc *RunCtx, params any) {
 	rc.R.Class = v.Name + "/" + p.Mode
 	applyKnobs(&v.C, p.FlightMs, p.NoBack, p.MTU)
 	applyKnobs(&v.S, p.FlightMs, p.NoBack, p.MTU)
+	if p.Mode == "post" {
+		if v.C.MaxVer != 13 || v.S.MaxVer != 13 {
+			v, _ = variantByName("13-full")
+			applyKnobs(&v.C, p.FlightMs, p.NoBack, 0)
+			applyKnobs(&v.S, p.FlightMs, p.NoBack, 0)
+			rc.R.Class = v.Name + "/" + p.Mode
+		}
+		rc.Note("proto", protoTag(v.C, v.S))
+		c17Post(rc, p, v)
+
+		return
+	}
 	stale := p.Mode == "stale" || p.Mode == "partial"
 	horizon := 16 * time.Minute
 	if p.NoBack && p.FlightMs > 0 {
